@@ -12,6 +12,7 @@ Decided (DESIGN.md §C12): the explicit integrator Phreeqc::rk_kinetics is a *co
   C12.partialstep  blocks that shorten the step before the early-exit tests also clear equal_rate (else a one-step exit
                 integrates only part of the interval)
   C12.trialreset every Runge-Kutta stage evaluation is followed by the restore of the saved pure-phase / solid-solution assemblages
+  C12.timeorigin the integration time origin is reset directly outside the step loop that advances it
   C12.savefree  after saver() both saved assemblages are freed and none is copied back (found the 2nd-order equal-rate exit defect)
   C12.clamp     the exhaustion cap of calc_final_kinetic_reaction tests and assigns the same bound
   C12.errmax    the step-acceptance error is the running maximum over all reactants (reset before, max-update inside the loop)
@@ -613,6 +614,7 @@ def run(P, R, tier):
     clamp_rule(P, R)
     trialreset_rule(P, R)
     savefree_rule(P, R)
+    timeorigin_rule(P, R)
 
 
 def trialreset_rule(P, R, RULE="C12.trialreset"):
@@ -701,6 +703,51 @@ def savefree_rule(P, R, RULE="C12.savefree"):
                 R.violation(RULE, inst, "after saver() (line %d) the saved %s assemblage is not freed" % (stm[i][1], " / ".join(sorted({"pp", "ss"} - freed))), line=stm[i][1], **where)
     if n < 4:
         R.anchor_missing(RULE, "rk_kinetics: only %d saver() calls found" % n)
+
+
+def timeorigin_rule(P, R):
+    """TOTAL_TIME / SIM_TIME and both integrators measure time from rate_sim_time_start.  With INCREMENTAL_REACTIONS the drivers
+    advance it by the step length after every reaction step (`rate_sim_time_start += kin_time` inside the step loop) and start
+    every calculation series from zero: the reset `rate_sim_time_start = 0` sits directly outside that step loop - per cell in
+    run_as_cells, once in reactions() and advection().  A reset hoisted out of the cell loop makes cell k start at (k-1) T."""
+    R.rule("C12.timeorigin", "the integration time origin is reset directly outside the step loop that advances it (once per cell / per series)", minimum=3)
+    LOOPS = ("For", "While", "Do", "RangeFor")
+    n = 0
+    for key, f in sorted(P.functions.items()):
+        if not f["q"].startswith("Phreeqc::"):
+            continue
+        resets, accs = [], []
+
+        def rec(nd, loops):
+            if not T.is_node(nd):
+                return
+            if nd[0] in LOOPS:
+                for c in T.children(nd):
+                    rec(c, loops + [nd[1]])
+                return
+            if nd[0] == "Bin" and T.strip_casts(nd[3])[0] == "Member" and T.strip_casts(nd[3])[2] == "Phreeqc::rate_sim_time_start":
+                if nd[2] == "=" and (T.lit_value(nd[4]) == 0 or T.text(nd[4]) in ("0", "0.0", "0.")):
+                    resets.append((nd[1], tuple(loops)))
+                if nd[2] == "+=":
+                    accs.append((nd[1], tuple(loops)))
+            for c in T.children(nd):
+                rec(c, loops)
+        rec(f["body"], [])
+        if not accs or not resets:
+            continue
+        for line, loops in accs:
+            n += 1
+            inst = "%s:+=@%d" % (f["q"].split("::")[-1], line)
+            want = loops[:-1]
+            prior = [r for r in resets if r[0] < line]
+            if any(r[1] == want for r in prior):
+                R.ok("C12.timeorigin", inst, "reset directly outside the step loop (line %d)" % [r for r in prior if r[1] == want][-1][0])
+            else:
+                R.violation("C12.timeorigin", inst, "rate_sim_time_start is advanced per step at line %d but reset at %s, not directly outside the step loop: with INCREMENTAL_REACTIONS a later "
+                            "cell / series starts its integration at the time the previous one ended" % (line, [r[0] for r in prior] or "no earlier line"),
+                            file=f["file"], line=line, function=f["q"])
+    if n < 3:
+        R.anchor_missing("C12.timeorigin", "only %d `rate_sim_time_start += ...` sites with a reset found" % n)
 
 
 def clamp_rule(P, R):
